@@ -22,6 +22,45 @@ type c17Case struct {
 	Kind    string `json:"kind"` // match | server
 	Pattern string `json:"pattern"`
 	Key     string `json:"key,omitempty"`
+	// kind "history": Pattern is compiled, then Distance other patterns, then
+	// Pattern again - the second compilation is the one that is checked
+	Distance int `json:"distance,omitempty"`
+}
+
+// c17Pool is the fixed list of "other" patterns of the history part.
+func c17Pool() []string {
+	var pool []string
+	eachString([]byte{'a', 'b', '*', '?', '.', '+', '(', '|', '$'}, 4, func(b []byte) { pool = append(pool, string(b)) })
+	return pool
+}
+
+// c17History: whatever the library keeps between compilations (the package is
+// process-wide state) must not change what a pattern means when it comes
+// round again after d other patterns.
+func c17History(pattern string, d int, pool, keys []string) (clause, detail string, n int) {
+	if cl, _, _ := c17Match(pattern, keys); cl != "" {
+		return "", "", 0 // reported by the match part
+	}
+	// the others start at a place in the pool that depends on the case, so that
+	// successive cases do not present the same (possibly remembered) patterns
+	start := d * 17
+	for _, ch := range pattern {
+		start = start*131 + int(ch)
+	}
+	done := 0
+	for i := 0; done < d && i < len(pool); i++ {
+		o := pool[(start+i)%len(pool)]
+		if o == pattern {
+			continue
+		}
+		guard(func() { glob.Compile(o) })
+		done++
+	}
+	clause, detail, n = c17Match(pattern, keys)
+	if clause != "" {
+		clause, detail = "after-other-patterns:"+clause, fmt.Sprintf("compiled again after %d other patterns: %s", d, detail)
+	}
+	return clause, detail, n
 }
 
 func c17Match(pattern string, keys []string) (clause, detail string, n int) {
@@ -183,6 +222,35 @@ func c17Run(c *fw.Ctx) {
 			}
 		})
 	}
+	// a pattern that comes round again after d other patterns (d around every power of two)
+	pool := c17Pool()
+	var keys3 []string
+	eachString(alpha, 3, func(b []byte) { keys3 = append(keys3, string(b)) })
+	var dist []int
+	for k := 0; k <= 10; k++ {
+		for _, d := range []int{1<<k - 1, 1 << k, 1<<k + 1} {
+			if d >= 1 && (len(dist) == 0 || d > dist[len(dist)-1]) {
+				dist = append(dist, d)
+			}
+		}
+	}
+	if c.Thorough() {
+		dist = append(dist, 4095, 4096, 4097, 7000)
+	}
+	bases := []string{"a*", "?b", "a.b", "*", "a+", "(a|b)", "$", "ab", "a?*", ".*"}
+	for _, base := range bases {
+		for _, d := range dist {
+			if !c.Mine() {
+				continue
+			}
+			clause, detail, n := c17History(base, d, pool, keys3)
+			c.EvalN(int64(n))
+			c.Nontrivial()
+			if clause != "" {
+				c.Violation("C17|"+clause+"|"+metaClass(base), detail, c17Case{Kind: "history", Pattern: base, Distance: d})
+			}
+		}
+	}
 	// through the server: KEYS and SCAN MATCH against a store holding all keys of length <= 2
 	var small []string
 	eachString(alpha, 2, func(b []byte) { small = append(small, string(b)) })
@@ -223,6 +291,12 @@ func c17Replay(raw json.RawMessage) (string, bool, error) {
 		eachString(alpha, 2, func(b []byte) { small = append(small, string(b)) })
 		clause, detail := c17Server(cs.Pattern, small)
 		return fmt.Sprintf("pattern=%q clause=%q %s", cs.Pattern, clause, detail), clause != "", nil
+	}
+	if cs.Kind == "history" {
+		var keys3 []string
+		eachString(alpha, 3, func(b []byte) { keys3 = append(keys3, string(b)) })
+		clause, detail, _ := c17History(cs.Pattern, cs.Distance, c17Pool(), keys3)
+		return fmt.Sprintf("pattern=%q distance=%d clause=%q %s", cs.Pattern, cs.Distance, clause, detail), clause != "", nil
 	}
 	var keys []string
 	eachString(alpha, 4, func(b []byte) { keys = append(keys, string(b)) })
